@@ -11,6 +11,7 @@
   the model; the code normalises it since the D18 fix).
 -/
 import MW.Lemmas.KsSys
+import MW.Gen.Keystore
 namespace MW.Props.C04
 open MW MW.Model.Keystore MW.Spec.Keystore
 open MW.Lemmas.KsMgr MW.Lemmas.KsIssue MW.Lemmas.KsRestore MW.Lemmas.KsSys
@@ -117,24 +118,6 @@ theorem mnemonic_import_same_id (sch : Curve Priv Pub Addr) (ks ks2 ks2' : KS Pr
   obtain ⟨_, hid⟩ := ksGood_importMnemonic sch ks2 ks2' r.mnemonic r.pass r.coin he hi used gap fuel id' hK2 h
   rw [hid]; exact ((hK.recs _ hr).id_eq).symm
 
-theorem findMgr_some (ks : KS Priv Pub Addr) (a : Addr) (id : String) (ma : MAddr Pub Addr)
-    (h : findMgr ks a = some (id, ma)) : ∃ m, (id, m) ∈ ks.mgrs ∧ AMap.get m.addrs a = some ma := by
-  unfold findMgr at h
-  generalize ks.mgrs = l at h
-  induction l with
-  | nil => simp at h
-  | cons e l ih =>
-    rw [List.findSome?_cons] at h
-    cases hg : AMap.get e.2.addrs a with
-    | none =>
-      simp only [hg, Option.map_none] at h
-      obtain ⟨m, hm, hma⟩ := ih h
-      exact ⟨m, List.mem_cons_of_mem _ hm, hma⟩
-    | some ma' =>
-      simp only [hg, Option.map_some, Option.some.injEq, Prod.mk.injEq] at h
-      obtain ⟨rfl, rfl⟩ := h
-      exact ⟨e.2, List.mem_cons_self, hg⟩
-
 /-- PRIV MATCHES PUB. In every reachable state, when SignHash finds an address and the passphrase is
     right, the private key it derives (account key → branch → index, getPrivKeyBtcec) has exactly the
     public key the address was built from, and that address is the one asked for — whether the address
@@ -208,5 +191,15 @@ example : Reachable toyCurve.toScheme demo := ⟨50, demoOps, rfl⟩
 example : (demo.insts.map (fun e => (e.1, e.2.ks.recs.map (fun r => (r.1, r.2.exNum))))) =
     [(2, [("abandon/Privpass1/1", 2)]), (3, [("abandon/Privpass1/1", 1)]), (1, [("abandon/Privpass1/1", 2)])] := by
   decide
+
+/-- TIE B: path m/44'/coin'/1'/branch/index (purpose, account = WalletUsage, branches), the id encoding
+    bech32 "ac" / version 15 of hash160(compressed account key), the white-space normalisation of an
+    imported sentence, and the passphrase pattern — as re-extracted from today's source. -/
+theorem gen_tie :
+    Gen.Keystore.purpose = 44 ∧ walletUsage = Gen.Keystore.walletUsage ∧
+    externalBranch = Gen.Keystore.externalBranch ∧ internalBranch = Gen.Keystore.internalBranch ∧
+    Gen.Keystore.idPrefix = "ac" ∧ Gen.Keystore.idWitnessVersion = 15 ∧ Gen.Keystore.idEncodingShape = true ∧
+    Gen.Keystore.mnemonicNormalised = true ∧ Gen.Keystore.passRegexpShape = true ∧
+    Gen.Keystore.hardenedKeyStart = 2^31 := by decide
 
 end MW.Props.C04
